@@ -749,6 +749,9 @@ size_t rtosc_bundle(char *buffer, size_t len, uint64_t tt, int elms, ...)
 {
     char *_buffer = buffer;
     memset(buffer, 0, len);
+    //Abort if the bundle header cannot fit
+    if(len < 16)
+        return 0;
     strcpy(buffer, "#bundle");
     buffer += 8;
     emplace_uint64((uint8_t*)buffer, tt);
@@ -759,6 +762,12 @@ size_t rtosc_bundle(char *buffer, size_t len, uint64_t tt, int elms, ...)
         const char   *msg  = va_arg(va, const char*);
         //It is assumed that any passed message/bundle is valid
         size_t        size = rtosc_message_length(msg, -1);
+        //Abort if the element cannot fit
+        if(len-(buffer-_buffer) < 4+size) {
+            va_end(va);
+            memset(_buffer, 0, len);
+            return 0;
+        }
         emplace_uint32((uint8_t*)buffer, size);
         buffer += 4;
         memcpy(buffer, msg, size);
